@@ -15,7 +15,7 @@ from checks import common
 PROP = 'C20'
 
 FILES = ['a.ls', 'b-c_d.ls', 'x&y<z>.ls', 'no_suffix', 'e.ls.ls', 'up/../e.ls', "q'\"t.ls"]
-PATHS = [None, 'p', 'a', 'q&"r<', 'off', 'stop-all', 'b c']
+PATHS = [None, 'p', 'a', 'q&"r<', 'off', 'stop-all', 'b c', 'night.ls', '.ls', "kid's"]
 TITLES = [None, 'T <b>&amp;', 'Plain']
 COLORS = ['red', '"><script>x</script>', "rgb(1, 2, 3)", "a&b"]
 
